@@ -33,6 +33,10 @@ pub struct PausedCase {
     pub victim: Step,
     pub pause_after: u8,
     pub intruder: Vec<Step>,
+    /// directed take-over: while the victim is paused, this person (if not the victim) first tries to
+    /// register the account name the victim held before its request, logs in, lists and adds
+    #[serde(default)]
+    pub takeover: Option<u8>,
 }
 
 /// what a person observably controls, derived only from its own successful responses
@@ -300,7 +304,22 @@ fn paused_check(c: &PausedCase, st: &mut Stats) -> CheckResult {
     };
     let mut res: Result<(), String> = Ok(());
     let paused = held.is_some();
-    for s in &c.intruder {
+    let mut intruder_steps: Vec<Step> = Vec::new();
+    if let (Some(tp), Some(old)) = (c.takeover, o.session[vp].clone()) {
+        let tp = if tp as usize % 3 == vp { (tp + 1) % 3 } else { tp % 3 };
+        // pool index of the victim's name before the request (temporary names are not in the pool)
+        if let Some(u) = (0u8..3).find(|u| o.uname(*u) == old) {
+            intruder_steps.extend([
+                Step::Register { p: tp, u, w: 0 },
+                Step::Login { p: tp, u, w: 0 },
+                Step::List { p: tp },
+                Step::Add { p: tp, name: 1, hybrid: false },
+                Step::Get { p: tp, name: 0 },
+            ]);
+        }
+    }
+    intruder_steps.extend(c.intruder.iter().cloned());
+    for s in &intruder_steps {
         let mut p = s.person() % 3;
         if p == vp {
             p = (p + 1) % 3;
@@ -340,7 +359,7 @@ fn paused_check(c: &PausedCase, st: &mut Stats) -> CheckResult {
     let after = format!(
         "after {:?} of person {vp} was paused after {let_through} database command(s) while {:?} ran",
         c.victim,
-        c.intruder
+        intruder_steps
     );
     for p in 0..3 {
         let l = cl.get(&mut jars[p], "/adf/")?;
@@ -365,7 +384,7 @@ fn paused_check(c: &PausedCase, st: &mut Stats) -> CheckResult {
         }));
         st.nontrivial(stable_hash(&format!("{c:?}")), || json!({"setup": c.setup.iter().map(|s| format!("{s:?}")).collect::<Vec<_>>(),
             "victim": format!("{:?}", c.victim), "paused_after_db_commands": let_through,
-            "intruder": c.intruder.iter().map(|s| format!("{s:?}")).collect::<Vec<_>>()}));
+            "intruder": intruder_steps.iter().map(|s| format!("{s:?}")).collect::<Vec<_>>()}));
     }
     Ok(Outcome::Ok)
 }
@@ -402,7 +421,11 @@ pub fn paused_part(tier: Tier) -> Box<dyn DynPart> {
                     }),
                 ],
             )
-                .prop_map(|(setup, victim, pause_after, intruder)| PausedCase { setup, victim, pause_after, intruder })
+                .prop_map(|(setup, victim, pause_after, intruder)| {
+                    // half of the cases are directed take-overs (the person is derived from the pause point)
+                    let takeover = if setup.len() % 2 == 0 { Some(pause_after.wrapping_add(setup.len() as u8)) } else { None };
+                    PausedCase { setup, victim, pause_after, intruder, takeover }
+                })
                 .boxed()
         },
         paused_check,
